@@ -6,12 +6,12 @@ package main
 // string / enum / object / oneof collections.
 
 import (
-	"time"
 	"encoding/json"
 	"fmt"
 	"net/url"
 	"strings"
 	"sync"
+	"time"
 
 	"github.com/pentops/j5/internal/codec"
 	"google.golang.org/protobuf/reflect/protoreflect"
